@@ -9,8 +9,10 @@ import (
 	"fmt"
 	"math/rand"
 	"net/http"
+	"os"
 	"sort"
 	"strings"
+	"time"
 
 	"github.com/jub0bs/cors"
 )
@@ -159,6 +161,35 @@ type lifeRun struct {
 	suite []reqSpec
 	mws   map[string]*cors.Middleware
 	ab    bool // the segment uses the named configurations A / B only (modes hist, multi, rejtwin): Debug events are emitted
+	// inHandler: SetDebug / Reconfigure are called the way the documentation invites - from an endpoint of the very server the
+	// middleware protects, i.e. from inside a handler that this middleware wraps (under a watchdog)
+	inHandler bool
+	onHang    func()
+}
+
+func (lr *lifeRun) call(id, what string, f func()) {
+	if !lr.inHandler {
+		f()
+		return
+	}
+	done := make(chan any, 1)
+	h := handlerFor(lr.mws[id], http.HandlerFunc(func(w http.ResponseWriter, _ *http.Request) {
+		f()
+		w.WriteHeader(204)
+	}))
+	go func() {
+		defer func() { done <- recover() }()
+		h.ServeHTTP(newRec(), newReq("POST", http.Header{"X-Admin": {"1"}}))
+	}()
+	select {
+	case p := <-done:
+		if p != nil {
+			panic(p)
+		}
+	case <-time.After(10 * time.Second):
+		lr.t.emit(map[string]any{"ev": "Hang", "by": "handler", "mw": id, "what": what + " called from a handler that the middleware itself wraps has not returned after 10 s"})
+		lr.onHang()
+	}
 }
 
 func (lr *lifeRun) observe(id string) {
@@ -268,12 +299,13 @@ func (lr *lifeRun) zero(id string) {
 }
 
 func (lr *lifeRun) reconf(id, cfgID string, cfg *cors.Config) {
-	err := tryReconf(lr.mws[id], cfg)
+	var err error
+	lr.call(id, "Reconfigure("+cfgID+")", func() { err = tryReconf(lr.mws[id], cfg) })
 	lr.t.emit(map[string]any{"ev": "Reconf", "mw": id, "cfg": cfgID, "ok": err == nil})
 }
 
 func (lr *lifeRun) setDebug(id string, b bool) {
-	lr.mws[id].SetDebug(b)
+	lr.call(id, fmt.Sprintf("SetDebug(%v)", b), func() { lr.mws[id].SetDebug(b) })
 	lr.t.emit(map[string]any{"ev": "SetDebug", "mw": id, "b": b})
 }
 
@@ -387,6 +419,7 @@ func noise(m *cors.Middleware) {
 	if m == nil {
 		return
 	}
+	lastMW.Store(m)
 	if c := m.Config(); c != nil {
 		scribbleConfig(c, "https://evil.example")
 		for i := range c.Methods {
@@ -685,13 +718,23 @@ func cmdLife(args []string) {
 	t := newTracer(*trace)
 	defer t.close()
 	lr := &lifeRun{t: t}
+	ncases := 0
+	var samples []any
+	t.watchdog(20*time.Second, func(h map[string]any) {
+		h["mw"] = "?"
+		t.emit(h)
+		lr.onHang()
+	})
+	lr.onHang = func() {
+		// the stuck goroutine holds the middleware's lock: nothing more can be done with it; what was recorded is judged
+		writeJSON(*out, map[string]any{"cases": ncases, "events": t.n, "probes_per_observation": len(lr.suite), "samples": samples, "hung": true})
+		t.close()
+		os.Exit(0)
+	}
 	A, B := semA(), semB()
 	cfgA, cfgB := plainConfig(A), plainConfig(B)
 	abSuite := smallSuite([]Sem{A, B})
 	invalid := invalidConfigs()
-	ncases := 0
-	var samples []any
-
 	switch *mode {
 	case "hist":
 		idx := 0
@@ -713,6 +756,7 @@ func cmdLife(args []string) {
 			}
 			lr.resetKeep(abSuite)
 			ncases++
+			lr.inHandler = ncases%2 == 0 // every other history makes its calls from inside a wrapped handler
 			var ops []string
 			for _, st := range hist {
 				switch st.Op.K {
